@@ -684,6 +684,9 @@ type streamWrapper struct {
 	initial  *pubsubpb.StreamingPullRequest
 	closed   chan struct{}
 	receives chan streamReceiveItem
+	// queued holds the rest of a client request that had to be split because
+	// it carried several different deadlines; only touched by Receive
+	queued []*actions.MessageStreamRequest
 }
 type streamReceiveItem struct {
 	msg *pubsubpb.StreamingPullRequest
@@ -712,6 +715,11 @@ func (w *streamWrapper) Close() error {
 }
 
 func (w *streamWrapper) Receive(context.Context) (*actions.MessageStreamRequest, error) {
+	if len(w.queued) != 0 {
+		ret := w.queued[0]
+		w.queued = w.queued[1:]
+		return ret, nil
+	}
 	if w.initial != nil {
 		ret, err := w.adaptIn(w.initial)
 		w.initial = nil
@@ -793,16 +801,28 @@ func (w *streamWrapper) adaptIn(
 		)
 	}
 	if len(m.ModifyDeadlineAckIds) != 0 {
-		var err error
-		if ret.Delay, err = parse.UUIDsFromStrings(m.ModifyDeadlineAckIds); err != nil {
+		ids, err := parse.UUIDsFromStrings(m.ModifyDeadlineAckIds)
+		if err != nil {
 			return nil, err
 		}
-		// we don't support per-message delay, so take the max delay of the set
-		for _, d := range m.ModifyDeadlineSeconds {
-			df := float64(d)
-			if ret.DelaySeconds < df {
-				ret.DelaySeconds = df
+		// a stream request carries one delay for all its ids, but every ack id
+		// comes with its own deadline (a nack is a zero deadline): split the ids
+		// by deadline, the first group goes with this request and the others are
+		// handed out by the following Receive calls
+		var order []int32
+		groups := map[int32][]uuid.UUID{}
+		for i, d := range m.ModifyDeadlineSeconds {
+			if _, ok := groups[d]; !ok {
+				order = append(order, d)
 			}
+			groups[d] = append(groups[d], ids[i])
+		}
+		ret.Delay, ret.DelaySeconds = groups[order[0]], float64(order[0])
+		for _, d := range order[1:] {
+			w.queued = append(w.queued, &actions.MessageStreamRequest{
+				Delay:        groups[d],
+				DelaySeconds: float64(d),
+			})
 		}
 	}
 	return ret, nil
